@@ -1,7 +1,10 @@
 package main
 
 import (
+	"encoding/json"
 	"fmt"
+	"os"
+	"sort"
 	"strings"
 	"time"
 
@@ -17,8 +20,10 @@ type interpCase struct {
 	ast    []*Ast
 	tags   map[string]bool
 	incs   [][]*Ast
-	incIdx []int  // index into incs of each registered include key (vc.RegKeys order)
-	spec   string // verdict of the reference semantics: "ok" | "na" | "bad <hex> <err>"
+	expect *corpusExpect     // corpus cases carry their expected result
+	incSrc map[string]string // corpus cases: include key -> source
+	incIdx []int             // index into incs of each registered include key (vc.RegKeys order)
+	spec   string            // verdict of the reference semantics: "ok" | "na" | "bad <hex> <err>"
 }
 
 func renderRun(key string, data *DataEnv, fail, short int) VRun {
@@ -97,8 +102,19 @@ func runInterp(o *Options, prop string, prof *Profile, quickN, thoroughN int, co
 		n *= o.Budget
 	}
 	var cases []*interpCase
-	for i := 0; i < n; i++ {
-		ic := genInterpCase(i, rng.Fork(), prof)
+	corpus := loadInterpCorpus(o, prop)
+	if o.Replay != "" {
+		n = 0
+	}
+	for i := 0; i < n+len(corpus); i++ {
+		var ic *interpCase
+		if i < len(corpus) {
+			ic = corpus[i]
+			ic.vc.ID = i
+			res.Hist("stream:corpus")
+		} else {
+			ic = genInterpCase(i, rng.Fork(), prof)
+		}
 		vc := ic.vc
 		key, dump, po := parseDump([]byte(vc.Src), vc.KeepFmt)
 		if po.ErrClass() != "OK" {
@@ -129,7 +145,9 @@ func runInterp(o *Options, prop string, prof *Profile, quickN, thoroughN int, co
 	}
 	var vcs []*VCase
 	for _, ic := range cases {
-		ic.vc.Spec = ic.specGallina()
+		if ic.ast != nil {
+			ic.vc.Spec = ic.specGallina()
+		}
 		vcs = append(vcs, ic.vc)
 	}
 	if err := RunCases(o, vcs); err != nil {
@@ -150,6 +168,20 @@ func runInterp(o *Options, prop string, prof *Profile, quickN, thoroughN int, co
 			replay := map[string]any{"template": vc.Src, "keep_fmt": vc.KeepFmt, "data_slots": vc.Data.Slots(), "fault_k": r.Fail, "short": r.Short,
 				"observed_hex": hx(r.Obs.Out), "observed": string(r.Obs.Out), "observed_err": r.Obs.Err, "observed_panic": r.Obs.Panic, "observed_hang": r.Obs.Hang,
 				"observed_writes": r.Writes, "model": v, "includes": vc.Meta, "seed": o.Seed, "tier": o.Tier}
+			if prof.Faults && r.Fail > 0 && r.Obs.Panic == "" && !r.Obs.Hang {
+				// C17 oracle, on the implementation's own observations
+				free := vc.Runs[0]
+				if r.Fail <= free.Writes && r.Obs.Err == "" {
+					res.OracleFails++
+					res.AddViolation(&Violation{Kind: "failing-input", Class: "fault:unreported",
+						What: fmt.Sprintf("template %q: the writer failed at write %d of %d but the render reported success (accepted %q)", vc.Src, r.Fail, free.Writes, r.Obs.Out), Replay: replay})
+				}
+				if !strings.HasPrefix(string(free.Obs.Out), string(r.Obs.Out)) && free.Obs.Err == "" {
+					res.OracleFails++
+					res.AddViolation(&Violation{Kind: "failing-input", Class: "fault:not-a-prefix",
+						What: fmt.Sprintf("template %q: with a fault at write %d the accepted bytes %q are not a prefix of the fault-free output %q", vc.Src, r.Fail, r.Obs.Out, free.Obs.Out), Replay: replay})
+				}
+			}
 			if r.Obs.Panic != "" || r.Obs.Hang {
 				res.OracleFails++
 				res.Mismatches++
@@ -166,6 +198,18 @@ func runInterp(o *Options, prop string, prof *Profile, quickN, thoroughN int, co
 					What: fmt.Sprintf("model and implementation differ on template %q (fault k=%d): implementation %q err=%q writes=%d, model %q err-class=%s writes=%s",
 						vc.Src, r.Fail, r.Obs.Out, r.Obs.Err, r.Writes, mout, f[2], f[3]), Replay: replay})
 			}
+		}
+		if ic.expect != nil {
+			// corpus case: the expected output recorded with it decides the property
+			r := vc.Runs[0]
+			if string(r.Obs.Out) != ic.expect.Out || (r.Obs.Err != "") != ic.expect.Err || r.Obs.Panic != "" || r.Obs.Hang {
+				res.OracleFails++
+				res.AddViolation(&Violation{Kind: "failing-input", Class: ic.expect.Class,
+					What: fmt.Sprintf("%s: template %q renders %q (err=%q%s) but must render %q (error expected: %v)", ic.expect.Note, vc.Src, r.Obs.Out, r.Obs.Err, r.Obs.Panic, ic.expect.Out, ic.expect.Err),
+					Replay: map[string]any{"template": vc.Src, "keep_fmt": vc.KeepFmt, "data": vc.Data, "includes": ic.incSrc, "expect_out": ic.expect.Out, "expect_err": ic.expect.Err,
+						"class": ic.expect.Class, "note": ic.expect.Note, "observed": string(r.Obs.Out), "observed_err": r.Obs.Err, "observed_panic": r.Obs.Panic}})
+			}
+			continue
 		}
 		res.Hist("parse:" + vc.ParseVerdict)
 		if vc.ParseVerdict == "bad" {
@@ -214,4 +258,73 @@ func unhex(s string) []byte {
 // classify names the decidable class of a specification failure (guards of known_findings.txt).
 func classify(prop string, ic *interpCase) string {
 	return "spec:" + prop
+}
+
+type corpusExpect struct {
+	Out   string
+	Err   bool
+	Class string
+	Note  string
+}
+
+// loadInterpCorpus reads /verif/corpus/<prop>/*.json (or the --replay file): template, data,
+// includes and the expected result.
+func loadInterpCorpus(o *Options, prop string) []*interpCase {
+	var out []*interpCase
+	for _, f := range corpusFiles(o, prop) {
+		b, err := os.ReadFile(f)
+		if err != nil {
+			continue
+		}
+		var c struct {
+			Template  string            `json:"template"`
+			KeepFmt   bool              `json:"keep_fmt"`
+			Data      *DataEnv          `json:"data"`
+			Includes  map[string]string `json:"includes"`
+			ExpectOut *string           `json:"expect_out"`
+			ExpectErr bool              `json:"expect_err"`
+			Class     string            `json:"class"`
+			Note      string            `json:"note"`
+		}
+		if json.Unmarshal(b, &c) != nil || c.Data == nil || c.ExpectOut == nil {
+			continue
+		}
+		vc := &VCase{Src: c.Template, KeepFmt: c.KeepFmt, Data: c.Data, Flits: map[string]float64{}, Reg: map[string][]dyntpl.VerifNode{}, Meta: map[string]any{}, Budget: 40}
+		ic := &interpCase{vc: vc, tags: map[string]bool{}, expect: &corpusExpect{Out: *c.ExpectOut, Err: c.ExpectErr, Class: c.Class, Note: c.Note}, incSrc: c.Includes}
+		// float literal table from the data
+		addF := func(f float64) { vc.Flits[floatText(f)] = f }
+		addF(c.Data.User.Cost)
+		addF(c.Data.User.Balance)
+		for _, h := range c.Data.User.History {
+			addF(h.Cost)
+		}
+		for _, s := range c.Data.Statics {
+			if s.Kind == "float" {
+				addF(s.F)
+			}
+		}
+		for i := int64(-2); i < 40; i++ {
+			vc.Flits[fmt.Sprint(i)] = float64(i)
+		}
+		for _, k := range sortedStrKeys(c.Includes) {
+			tree, err := dyntpl.Parse([]byte(c.Includes[k]), false)
+			if err != nil {
+				continue
+			}
+			dyntpl.RegisterTplKey(k, tree)
+			vc.Reg[k] = dyntpl.VerifTree(tree)
+			vc.RegKeys = append(vc.RegKeys, k)
+		}
+		out = append(out, ic)
+	}
+	return out
+}
+
+func sortedStrKeys(m map[string]string) []string {
+	ks := make([]string, 0, len(m))
+	for k := range m {
+		ks = append(ks, k)
+	}
+	sort.Strings(ks)
+	return ks
 }
